@@ -66,7 +66,8 @@ def passwords(tier):
     """(id, password) -- ASCII / UTF-8 multibyte / non-UTF-8 bytes, lengths 0/1/8/9/72/73/200, str and bytes"""
     letters = "aZ3.kQ/9wPl0mX7e" * 16
     out = []
-    for n in (0, 1, 8, 9, 72, 73, 200):
+    # 63 / 64 / 65 and 127 / 128 / 129: around the block size of the digests that key an HMAC with the password
+    for n in (0, 1, 8, 9, 63, 64, 65, 72, 73, 127, 128, 129, 200):
         out.append((f"ascii{n}", letters[:n]))
     for n in (8, 9, 72, 73):
         out.append((f"ascii{n}b", letters[:n].encode()))
